@@ -12,6 +12,10 @@ type Options struct {
 	Stmts int  // statements per block at the top level of a function (default 6)
 	Depth int  // expression depth (default 3)
 	Lib   bool // may import the native package "lib"
+	// NoLabelledContinue keeps labelled continue statements, and labelled break
+	// statements directly inside a for-range body, out of the program (scope of
+	// an open finding of C03: the emitter does not implement them).
+	NoLabelledContinue bool
 }
 
 type variable struct {
@@ -869,7 +873,7 @@ func (g *Gen) stmt(depth int) {
 	case n < 86:
 		if g.loops > 0 {
 			kw := g.pick([]string{"break", "continue"})
-			if len(g.labels) > 0 && g.chance(40) {
+			if len(g.labels) > 0 && g.chance(40) && !(kw == "continue" && g.opt.NoLabelledContinue) {
 				kw += " " + g.labels[g.r.Intn(len(g.labels))]
 			}
 			g.emit("if %s {", g.expr(tBool, 1).s)
@@ -946,6 +950,7 @@ func (g *Gen) forStmt(depth int) {
 	}
 	head := ""
 	var rangeVars []string
+	isRange := false
 	g.push()
 	switch n := g.r.Intn(100); {
 	case n < 35:
@@ -968,6 +973,7 @@ func (g *Gen) forStmt(depth int) {
 			break
 		}
 		v := vs[g.r.Intn(len(vs))]
+		isRange = true
 		var kt, et *Type
 		switch v.t.K {
 		case KSlice, KArray:
@@ -1000,6 +1006,12 @@ func (g *Gen) forStmt(depth int) {
 	default:
 		head = "for {"
 	}
+	savedLabels := g.labels
+	if isRange && g.opt.NoLabelledContinue {
+		// no labelled branch may have this loop as innermost enclosing statement
+		label = ""
+		g.labels = nil
+	}
 	if label != "" {
 		g.emit("%s:", label)
 		g.labels = append(g.labels, label)
@@ -1013,10 +1025,10 @@ func (g *Gen) forStmt(depth int) {
 	if label != "" {
 		// make sure the label is used
 		g.emit("\tbreak %s", label)
-		g.labels = g.labels[:len(g.labels)-1]
 	} else if head == "for {" {
 		g.emit("\tbreak")
 	}
+	g.labels = savedLabels
 	g.loops--
 	g.emit("}")
 	g.pop()
